@@ -132,6 +132,16 @@ chk("C09", "model_checking",
     "Python codecs as reference encoder/decoder; 512 scalars share a file (bisected on failure)",
     "exhaustive enumeration over Unicode scalars x encodings and option product with transcoding-commutation oracle", "3/C09")
 
+chk("C08", "model_checking",
+    "Stateless exhaustive exploration on the real binary: 12 small programs (multi-line block comment, backslash-continued macro, '//' and "
+    "string continuations, raw string with a line break, *INDENT-OFF* and #pragma asm regions, blank-line runs, last line without "
+    "terminator, #if) x ALL 3^L assignments of {LF, CRLF, CR} to their L <= 7 line breaks x profiles, and the language skeletons x uniform / "
+    "every 1-deviation (thorough: 2-deviation) assignment; each variant is formatted under newlines = lf, crlf, cr and auto. Oracle: only the "
+    "configured terminator occurs outside literals; output equals the output for the LF-canonical form of the same bytes; the crlf/cr output "
+    "is the lf output with terminators replaced; auto uses a most frequent terminator counted outside disabled regions.",
+    "raw strings masked as the only literals with line breaks; marker lines of a region may count either way; four individually listed known findings (CR-only and census details)",
+    "exhaustive enumeration of terminator assignments (3^L) with differential oracle against the LF-canonical run", "3/C08")
+
 
 def main():
     commits = subprocess.run(["git", "-C", "/repo", "log", "--format=%h %s"], stdout=subprocess.PIPE, text=True).stdout.splitlines()
